@@ -7,9 +7,11 @@ generic harness body `body` (a Rust path under crate::harness) with the Kani val
 STUB_MEM = [
     ("crate::bus::Bus::read", "crate::harness::mem::bus_read_stub"),
     ("crate::bus::Bus::write", "crate::harness::mem::bus_write_stub"),
+    ("crate::bus::Bus::new", "crate::harness::stubs::bus_new_small"),
 ]
 STUB_CALC = [("crate::cpu::Cpu::calc_state_with_addr", "crate::harness::ghost::ghost_calc_state_with_addr")]
 STUB_FMT = [("std::fmt::format", "crate::harness::stubs::fmt_format")]
+STUB_MES2 = [("crate::cpu::Cpu::trapa_emulate_mes2", "crate::harness::ghost::ghost_mes2")]
 STUB_SEND = [("std::sync::mpsc::Sender::send", "crate::harness::stubs::mpsc_send")]
 
 SPECS = []
@@ -23,7 +25,7 @@ def add(prop, name, body, *, stubs=(), keep=None, unwind=None, tier="quick", tim
         dict(
             prop=prop,
             name=name,
-            body="crate::harness::" + body,
+            body=(body if "(" in body else body + "($S)"),
             stubs=st,
             ghost_siblings=keep is not None,
             keep=list(keep or []),
@@ -40,6 +42,132 @@ def add(prop, name, body, *, stubs=(), keep=None, unwind=None, tier="quick", tim
 add("C19", "c19_cost_matches_reference", "c19::cost_matches_reference")
 add("C19", "c19_calc_state_uses_operating_pc", "c19::calc_state_uses_operating_pc")
 add("C19", "c19_other_areas_do_not_matter", "c19::other_areas_do_not_matter")
+
+# ------------------------------------------------------------------ instruction forms (C01-C06 semantics, C20 cycle mix)
+INSTR_STUBS = (STUB_MEM, STUB_CALC)
+FORMS = []  # (prop, form-name, call-template with {mode}, keep, extra kwargs)
+
+
+def form(prop, fname, call, keep, **kw):
+    FORMS.append((prop, fname, call, keep, kw))
+
+
+SZN = {1: "b", 2: "w", 4: "l"}
+# two-operand ALU
+for op, opn, prop in (("ADD", "add", "C02"), ("SUB", "sub", "C02"), ("CMP", "cmp", "C02"), ("AND", "and", "C03"), ("OR", "or", "C03"), ("XOR", "xor", "C03")):
+    for sz in (1, 2, 4):
+        for imm in (True, False):
+            if op == "SUB" and sz == 1 and imm:
+                continue  # no SUB.B #imm in the H8/300H
+            z = SZN[sz]
+            k = "imm" if imm else "rn"
+            if op == "CMP":
+                keep = [f"cmp_{z}_{k}"]
+            elif op == "SUB" and sz == 1:
+                keep = ["sub_b"]
+            elif op in ("ADD", "SUB"):
+                keep = [f"{opn}_{z}", f"{opn}_{z}_{k}"]
+            else:
+                keep = [f"{opn}_{z}_{k}"]
+            form(prop, f"{opn}_{z}_{k}", f"c02::alu2($S, {{mode}}, c02::{op}, {sz}, {'true' if imm else 'false'})", keep)
+form("C02", "addx_imm", "c02::alu2($S, {mode}, c02::ADDX, 1, true)", ["addx_imm"])
+form("C02", "addx_rn", "c02::alu2($S, {mode}, c02::ADDX, 1, false)", ["addx_rn"])
+
+# one-operand
+UN = [
+    # prop, name, b0, hi, sz, sem, k, keep
+    ("C02", "neg_b", 0x17, 0x8, 1, "NEG", 0), ("C02", "neg_w", 0x17, 0x9, 2, "NEG", 0), ("C02", "neg_l", 0x17, 0xB, 4, "NEG", 0),
+    ("C03", "not_b", 0x17, 0x0, 1, "NOT", 0), ("C03", "not_w", 0x17, 0x1, 2, "NOT", 0), ("C03", "not_l", 0x17, 0x3, 4, "NOT", 0),
+    ("C03", "extu_w", 0x17, 0x5, 2, "EXTU", 0), ("C03", "extu_l", 0x17, 0x7, 4, "EXTU", 0),
+    ("C02", "inc_b", 0x0A, 0x0, 1, "INC", 1), ("C02", "inc_w_1", 0x0B, 0x5, 2, "INC", 1), ("C02", "inc_w_2", 0x0B, 0xD, 2, "INC", 2),
+    ("C02", "inc_l_1", 0x0B, 0x7, 4, "INC", 1), ("C02", "inc_l_2", 0x0B, 0xF, 4, "INC", 2),
+    ("C02", "dec_b", 0x1A, 0x0, 1, "DEC", 1), ("C02", "dec_w_1", 0x1B, 0x5, 2, "DEC", 1), ("C02", "dec_w_2", 0x1B, 0xD, 2, "DEC", 2),
+    ("C02", "dec_l_1", 0x1B, 0x7, 4, "DEC", 1), ("C02", "dec_l_2", 0x1B, 0xF, 4, "DEC", 2),
+    ("C02", "adds1", 0x0B, 0x0, 4, "ADDS", 1), ("C02", "adds2", 0x0B, 0x8, 4, "ADDS", 2), ("C02", "adds4", 0x0B, 0x9, 4, "ADDS", 4),
+    ("C02", "subs1", 0x1B, 0x0, 4, "SUBS", 1), ("C02", "subs2", 0x1B, 0x8, 4, "SUBS", 2), ("C02", "subs4", 0x1B, 0x9, 4, "SUBS", 4),
+]
+for sem, b0, his in (("SHLL", 0x10, (0, 1, 3)), ("SHAL", 0x10, (8, 9, 0xB)), ("SHLR", 0x11, (0, 1, 3)), ("SHAR", 0x11, (8, 9, 0xB)),
+                     ("ROTXL", 0x12, (0, 1, 3)), ("ROTL", 0x12, (8, 9, 0xB)), ("ROTXR", 0x13, (0, 1, 3)), ("ROTR", 0x13, (8, 9, 0xB))):
+    for sz, hi in zip((1, 2, 4), his):
+        UN.append(("C03", f"{sem.lower()}_{SZN[sz]}", b0, hi, sz, sem, 0))
+for prop, nm, b0, hi, sz, sem, k in UN:
+    form(prop, nm, f"c02::alu1($S, {{mode}}, {b0:#x}, {hi:#x}, {sz}, c02::{sem}, {k})", [nm])
+form("C02", "mulxu_b", "c02::mulxu($S, {mode}, 1)", ["mulxu_b"])
+form("C02", "mulxu_w", "c02::mulxu($S, {mode}, 2)", ["mulxu_w"], timeout=1800)
+form("C02", "divxu_b", "c02::divxu($S, {mode}, 1)", ["divxu_b"])
+form("C02", "divxu_w", "c02::divxu($S, {mode}, 2)", ["divxu_w"], timeout=1800)
+
+
+# MOV
+MOV_AM = {"rn": "RN", "imm": "IMM", "ern": "ERN", "disp16": "D16", "disp24": "D24", "incdec": "INCDEC", "abs8": "A8", "abs16": "A16", "abs24": "A24"}
+for sz in (1, 2, 4):
+    z = SZN[sz]
+    for am in ("rn", "imm", "ern", "disp16", "disp24", "incdec", "abs8", "abs16", "abs24"):
+        if am == "abs8" and sz != 1:
+            continue
+        sub = {"incdec": f"mov_{z}_inc_or_dec"}.get(am, f"mov_{z}_{am}")
+        if am == "disp24" and sz != 4:
+            keep = [sub]
+        elif sz == 1 and am in ("abs16", "abs24"):
+            keep = ["mov_b", "mov_b_abs_16_or_24", sub]
+        else:
+            keep = [f"mov_{z}", sub]
+        dirs = ((False, "load"),) if am in ("rn", "imm") else ((False, "load"), (True, "store"))
+        for store, dn in dirs:
+            nm = f"mov_{z}_{am}" + ("" if am in ("rn", "imm") else "_" + dn)
+            for pcn, pcv, tier in (("", "util::PC_RAM", "quick"), ("_dram", "util::PC_DRAM", "thorough")):
+                form("C01", nm + pcn, f"c01::mov($S, {{mode}}, {sz}, c01::{MOV_AM[am]}, {'true' if store else 'false'}, {pcv})", keep, tier=tier)
+
+
+# bit manipulation (C04)
+BITOPS = [("BSET", "bset", True), ("BCLR", "bclr", True), ("BNOT", "bnot", True), ("BTST", "btst", True), ("BST", "bst", False),
+          ("BIST", "bist", False), ("BLD", "bld", False), ("BILD", "bild", False), ("BAND", "band", False), ("BIAND", "biand", False),
+          ("BOR", "bor", False), ("BIOR", "bior", False), ("BXOR", "bxor", False), ("BIXOR", "bixor", False)]
+for OP, opn, has_rn in BITOPS:
+    for LOC, locn in (("REG", "rn"), ("ERN", "ern"), ("ABS8", "abs")):
+        for from_rn in ((False, True) if has_rn else (False,)):
+            if opn == "btst":
+                h = f"btst_{'rn' if from_rn else 'imm'}_{locn}"
+            elif has_rn and locn == "rn":
+                h = f"{opn}_rn_from_{'rn' if from_rn else 'imm'}"
+            else:
+                h = f"{opn}_{locn}"
+            nm = f"{opn}_{locn}_{'byrn' if from_rn else 'imm'}"
+            form("C04", nm, f"c04::bitop($S, {{mode}}, c04::{OP}, c04::{LOC}, {'true' if from_rn else 'false'})", [h])
+
+# control transfer (C05) and exceptions (C06)
+CC = ["bra", "brn", "bhi", "bls", "bcc", "bcs", "bne", "beq", "bvc", "bvs", "bpl", "bmi", "bge", "blt", "bgt", "ble"]
+form("C05", "bcc8", "c05::bcc($S, {mode}, false, util::PC_RAM)", ["bcc"] + [x + "8" for x in CC])
+form("C05", "bcc16", "c05::bcc($S, {mode}, true, util::PC_RAM)", ["bcc"] + [x + "16" for x in CC])
+form("C05", "bcc8_dram", "c05::bcc($S, {mode}, false, util::PC_DRAM)", ["bcc"] + [x + "8" for x in CC], tier="thorough")
+form("C05", "bcc16_dram", "c05::bcc($S, {mode}, true, util::PC_DRAM)", ["bcc"] + [x + "16" for x in CC], tier="thorough")
+form("C05", "jmp_ern", "c05::jmp($S, {mode}, c05::JMP_ERN)", ["jmp", "jmp_ern"])
+form("C05", "jmp_abs", "c05::jmp($S, {mode}, c05::JMP_ABS)", ["jmp", "jmp_abs"])
+form("C05", "jmp_indirect", "c05::jmp($S, {mode}, c05::JMP_IND)", ["jmp", "jmp_indirect"])
+CALLS = [("bsr8", "BSR8", ["bsr_disp16"]), ("bsr16", "BSR16", ["bsr_disp24"]), ("jsr_ern", "JSR_ERN", ["jsr", "jsr_ern"]),
+         ("jsr_abs", "JSR_ABS", ["jsr", "jsr_abs"]), ("jsr_indirect", "JSR_IND", ["jsr", "jsr_indirect"])]
+for nm, K, keep in CALLS:
+    form("C05", nm, f"c05::call($S, {{mode}}, c05::{K})", keep)
+form("C05", "rts", "c05::rts($S, {mode})", ["rts"])
+form("C06", "trapa", "c05::trapa($S, {mode})", ["trapa"], stubs=INSTR_STUBS + (STUB_MES2,))
+form("C06", "rte", "c05::rte($S, {mode})", ["rte"])
+
+
+# STC.W memory forms (C08: address formation only)
+for K, nm, h in (("ST_ERN", "ern", "stc_w_ern"), ("ST_D16", "disp16", "stc_w_disp16"), ("ST_D24", "disp24", "stc_w_disp24"),
+                 ("ST_DEC", "predec", "stc_w_inc_ern"), ("ST_A16", "abs16", "stc_abs16"), ("ST_A24", "abs24", "stc_abs24")):
+    form("C08", f"stc_w_{nm}", f"c08::stc_w($S, {{mode}}, c08::{K})", [h])
+
+
+def register_forms():
+    for prop, fname, call, keep, kw in FORMS:
+        kw1 = {k: v for k, v in kw.items() if k != "no_cyc"}
+        kw1.setdefault("stubs", INSTR_STUBS)
+        add(prop, f"{prop.lower()}_{fname}", call.format(mode="ih::MODE_SEM"), keep=keep, **kw1)
+        if not kw.get("no_cyc"):
+            kw2 = {k: v for k, v in kw.items() if k != "no_cyc"}
+            kw2.setdefault("stubs", INSTR_STUBS)
+            add("C20", f"c20_{fname}", call.format(mode="ih::MODE_CYC"), keep=keep, **kw2)
 
 
 def for_property(prop, tier):
@@ -59,3 +187,57 @@ def properties():
         if s["prop"] not in seen:
             seen.append(s["prop"])
     return seen
+
+
+register_forms()
+for nm, K, keep in CALLS:
+    add("C05", f"c05_{nm}_then_rts", f"c05::call_then_rts($S, c05::{K})", stubs=INSTR_STUBS, keep=keep + ["rts"])
+add("C05", "c05_pc_disp8_lemma", "c05::pc_disp_lemma($S, false)")
+add("C05", "c05_pc_disp16_lemma", "c05::pc_disp_lemma($S, true)")
+add("C05", "c05_fetch_lemma", "c05::fetch_lemma($S)", stubs=(STUB_MEM,))
+add("C06", "c06_interrupt", "c05::interrupt($S)", stubs=(STUB_MEM,))
+add("C06", "c06_trapa_then_rte", "c05::entry_then_rte($S, true)", stubs=INSTR_STUBS + (STUB_MES2,), keep=["trapa", "rte"])
+add("C06", "c06_interrupt_then_rte", "c05::entry_then_rte($S, false)", stubs=INSTR_STUBS, keep=["rte"])
+
+add("C08", "c08_ea_pure", "c08::ea_pure($S)")
+# C08 also re-decides the "which location is accessed" aspects of the memory-operand instructions
+for prop, fname, call, keep, kw in FORMS:
+    if kw.get("tier") == "thorough":
+        continue
+    if (prop == "C01" and any(k in fname for k in ("ern", "disp", "incdec", "abs"))) or fname in (
+            "bset_ern_imm", "bclr_abs_imm", "btst_ern_byrn", "bld_abs_imm", "bst_ern_imm", "jmp_indirect", "jsr_indirect", "rts", "rte", "trapa", "bsr8"):
+        kw3 = dict(kw)
+        kw3.setdefault("stubs", INSTR_STUBS)
+        add("C08", f"c08_{fname}", call.format(mode="ih::MODE_SEM"), keep=keep, **kw3)
+
+add("C09", "c09_read_classification", "c09::read_classification($S)")
+for g in range(6):
+    add("C09", f"c09_write_then_probe_g{g}", f"c09::write_then_probe($S, {g})", unwind=9)
+    add("C09", f"c09_word_long_composition_g{g}", f"c09::word_long_composition($S, {g})", unwind=9)
+
+# C07: unimplemented instruction families; handlers the decoder currently routes them to are kept real
+STC_FILE = ["stc_b", "stc_w_ern", "stc_w_disp16", "stc_w_disp24", "stc_w_inc_ern", "stc_abs16", "stc_abs24"]
+MOVL_FILE = ["mov_l", "mov_l_rn", "mov_l_imm", "mov_l_ern", "mov_l_disp16", "mov_l_disp24", "mov_l_inc_or_dec", "mov_l_abs16", "mov_l_abs24"]
+MOVB_FILE = ["mov_b", "mov_b_rn", "mov_b_imm", "mov_b_ern", "mov_b_disp16", "mov_b_disp24", "mov_b_inc_or_dec", "mov_b_abs8",
+             "mov_b_abs_16_or_24", "mov_b_abs16", "mov_b_abs24"]
+for fam, keep in (("NOP", []), ("SLEEP", []), ("LDC_IMM", []), ("LDC_RS", []), ("LOGIC_C", []), ("LDC_W", STC_FILE), ("SUBX", []),
+                  ("DAA", MOVL_FILE), ("DAS", ["cmp_l_imm", "cmp_l_rn"]), ("EXTS", []), ("MULDIVXS", []), ("EEPMOV", []), ("MOVFPE", MOVB_FILE)):
+    add("C07", f"c07_unimpl_{fam.lower()}", f"c07::unimplemented($S, c07::{fam})", stubs=INSTR_STUBS, keep=keep)
+
+add("C10", "c10_boundary_step", "c10::boundary_step($S)", stubs=(STUB_MEM,), unwind=18)
+add("C10", "c10_request_appends", "c10::request_appends($S)", unwind=18)
+
+STUB_STDOUT = [("crate::cpu::Cpu::send_stdout_message", "crate::harness::c14::ghost_send_stdout")]
+add("C14", "c14_sys_write", "c14::sys_write($S)", stubs=INSTR_STUBS + (STUB_STDOUT,), keep=["trapa"], unwind=18, timeout=1200)
+add("C14", "c14_sys_set_handler", "c14::sys_set_handler($S)", stubs=INSTR_STUBS + (STUB_STDOUT,), keep=["trapa"], unwind=18)
+add("C14", "c14_sys_other", "c14::sys_other($S)", stubs=INSTR_STUBS + (STUB_STDOUT,), keep=["trapa"], unwind=18)
+
+STUB_IOMSG = [("crate::bus::Bus::send_io_port_value", "crate::harness::c16::ghost_send_io_port_value")]
+add("C16", "c16_single_op", "c16::single_op($S)", stubs=(STUB_IOMSG,))
+for p in (1, 6, 11):
+    add("C16", f"c16_history3_port{p}", f"c16::history3($S, {p})", stubs=(STUB_IOMSG,), unwind=8, tier="quick" if p != 6 else "thorough")
+
+add("C17", "c17_update_step_64", "c17::update_step($S, 64)", unwind=42, timeout=1500)
+add("C17", "c17_update_step_255", "c17::update_step($S, 255)", unwind=42, timeout=3000, tier="thorough")
+add("C17", "c17_tcr_write_keeps_phase", "c17::tcr_write_keeps_phase($S)")
+add("C17", "c17_partition_lemma", "c17::partition_lemma($S)")
